@@ -442,6 +442,14 @@ func sortColumns(ssl []sql.SortSpecification, qfields storage.Fields, rows []*st
 			}
 
 			sortAsc := false
+			if lhs == nil || rhs == nil {
+				// NULL sorts before every value
+				sortAsc = lhs == nil
+				if ssl[sortIdx].OrderingSpecification.Type == sql.DESC {
+					sortAsc = !sortAsc
+				}
+				return sortAsc
+			}
 			switch lhs.(type) {
 			case int64:
 				sortAsc = lhs.(int64) < rhs.(int64)
